@@ -37,6 +37,23 @@ def run(check):
             fam = "papi"
         g["family"] = fam
         items.append((case, sem, g))
+    # dedicated workloads: many equal steps finishing at the same moment, and many loop items failing at the same moment
+    from ..model import Expr, In, Ref, Program, Step
+    for j in range(check.pick(30, 200)):
+        rng = random.Random(derive_seed(check.seed, "c17-sim", j))
+        if j % 2 == 0:
+            steps, outs = gen.shape_fan_in(rng, rng.choice([8, 12, 16]))
+            prog = Program(steps, outs, gen.BASE_INPUT)
+            g = {"program": prog, "scripts": gen.make_scripts(steps, {}), "input": {"tag": "T"}, "shape": "fan_in-simultaneous", "family": "simultaneous-completion", "outcome": {}}
+        else:
+            sub = gen.sub_program("sub.yaml", 1)
+            fe = Step("loop", "foreach", sub=sub, items=Expr(In("items")), parallelism=rng.choice([4, 16]))
+            prog = Program([fe], {"success": {"d": Expr(Ref("loop", "outputs", "success", "data"))}, "failed": {"e": Expr(Ref("loop", "failed", "error"))}}, gen.BASE_INPUT)
+            scripts = gen.make_scripts([fe], {})
+            scripts["sub_w0"]["exec"] = {"outcome": rng.choice(["crash", "error"])}
+            g = {"program": prog, "scripts": scripts, "input": {"tag": "T", "items": [{"tag": "i%d" % k} for k in range(16)]}, "shape": "foreach-all-items-fail", "family": "loop-failing-items", "outcome": {}}
+        case, sem = runfam.build_case("c17-s%04d" % j, g, no_events=True)
+        items.append((case, sem, g))
     stats = {"families": {}}
     with harness.Runner(race=True) as rn:
         cc = cancelfam.cancel_cases(check, rn, "c17c", check.pick(4, 12), check.pick(4, 14), kmax_quick=6)
